@@ -60,6 +60,7 @@ func genEngine(c *Ctx) error {
 	if !journalFocus && !c.Flag("drop") {
 		directedWALShrink(c)
 		directedWALGrowShrinkCheckpoint(c)
+		directedWALRestartRollback(c)
 	}
 	if c.Flag("drop") {
 		directedDropRestart(c)
@@ -415,5 +416,50 @@ func directedWALGrowShrinkCheckpoint(c *Ctx) {
 			c.Nontrivial(fmt.Sprintf("directed-wal-grow-shrink-%d-%v", ps, restartFirst))
 			cs.End()
 		}
+	}
+}
+
+// directedWALRestartRollback: committed frames sit in the WAL; SQLite checkpoints them all and the
+// next writer restarts the log (new header, frames from the start) but rolls back after spilling
+// uncommitted frames over the old ones.  Exports and snapshots taken then — before any further
+// commit — must still be the committed image; then a commit in the restarted log.
+func directedWALRestartRollback(c *Ctx) {
+	r := c.Rng
+	for _, ps := range []int{512, 4096} {
+		cs := c.Begin()
+		do := func(op string) string { c.Count("op." + strings.SplitN(op, " ", 2)[0]); return cs.Do(op) }
+		p := newPager(r, ps, do)
+		do("open primary")
+		do("createdb")
+		n := r.Range(4, 7)
+		all := txShape{newN: n, pages: map[int]bool{}, commit: true}
+		for pg := 1; pg <= n; pg++ {
+			all.pages[pg] = true
+		}
+		p.journalTx(all, 0, 0)
+		p.wal = true
+		p.journalTx(txShape{newN: n, pages: map[int]bool{1: true}, commit: true}, 0, 0)
+		p.walTx(txShape{newN: n, pages: map[int]bool{1: true, 2: true, 3: true}, commit: true}, false, false, false)
+		p.walTx(txShape{newN: n, pages: map[int]bool{1: true, 2: true, 4: true}, commit: true}, false, false, false)
+		observe(c, cs, p, "directed wal restart-rollback: two transactions in the log")
+		p.sqliteCheckpoint(true, false) // everything backfilled, the log is left as it is; the next writer restarts it
+		observe(c, cs, p, "directed wal restart-rollback: checkpointed")
+		// the writer that restarts the log rolls back (its frames carry no commit mark)
+		p.walTx(txShape{newN: n, pages: map[int]bool{1: true, 3: true, 4: true}, commit: true}, true, false, false)
+		observe(c, cs, p, "directed wal restart-rollback: rolled back")
+		check := func(what string) {
+			ex := do("export")
+			if !strings.Contains(ex, "img="+p.refImageDigest()) {
+				c.Fail(fmt.Sprintf("directed wal restart-rollback (%s): export %q differs from what SQLite sees %q", what, ex, p.refImageDigest()))
+			}
+			do("snapshot")
+		}
+		check("after the rolled-back restart")
+		p.walTx(txShape{newN: n, pages: map[int]bool{1: true, 2: true}, commit: true}, false, false, false)
+		observe(c, cs, p, "directed wal restart-rollback: committed in the restarted log")
+		check("after the next commit")
+		c.Count("directed.wal-restart-rollback")
+		c.Nontrivial(fmt.Sprintf("directed-wal-restart-rollback-%d", ps))
+		cs.End()
 	}
 }
